@@ -183,6 +183,9 @@ def run_impl(f, *args):
     except RecursionError:
         return ('raise', 'RecursionError')
     except Exception as exc:       # noqa: BLE001 — the class is the observable
+        for cls in type(exc).__mro__:           # nearest class the models know
+            if cls.__name__ in EXN_NAMES.values():
+                return ('raise', cls.__name__)
         return ('raise', type(exc).__name__)
 
 
